@@ -5,7 +5,10 @@ import CoclsModel.LimitedQueueProofs
 Model: `CoclsModel/LimitedQueue.lean` (one step per lock region of `limited_queue`, out-of-lock promise
 resolutions as separate `deliver` steps).  Every theorem below quantifies over *all* limits ≥ 1 and *all*
 operation lists (any number of producers/consumers: an interleaving of their lock regions and resolutions is
-an operation list).
+an operation list) - including the operations on throwing items: `pushthrow` (the item refuses to be
+constructed), `pushmv` / `popthrow` / `upushthrow` (a call during which the hand-overs - move or copy
+constructions of the item - number `g … g+n-1` throw, for every `g`, `n`).  No theorem excludes them by a
+precondition: `Reachable` is reachability by arbitrary operation lists.
 -/
 namespace Cocls.LQ
 
@@ -18,14 +21,16 @@ theorem reachable_inv {limit : Nat} (hl : 0 < limit) {s : State} (h : Reachable 
 
 /-- Exactly once: every pushed item (identified by the serial number of its push) is, at any time, held in
 exactly one place — handed to a pop, waiting in the queue, or held by its blocked push — or was withdrawn by
-`unblock_push`/destruction exactly once; never both, never twice, never nowhere. -/
+`unblock_push` / its own exception on admission / destruction exactly once; never both, never twice, never
+nowhere.  Holds after histories with throwing operations as well: a pop, push or unblock_push that throws
+neither drops nor duplicates an item. -/
 theorem c10_exactly_once {limit : Nat} (hl : 0 < limit) {s : State} (h : Reachable limit s) (i : Nat) :
     (heldIds s).count i + s.withdrawn.count i = if i < s.nextPush then 1 else 0 :=
   (reachable_inv hl h).item_once i
 
 /-- Order: items handed to pops, then the queue, then the blocked pushes, are in strict push order. In
 particular the sequence of items handed out is a strictly increasing sequence of push serials (no reordering,
-no duplicate), blocked pushes included. -/
+no duplicate), blocked pushes included - also when pops failed and were retried in between. -/
 theorem c10_order {limit : Nat} (hl : 0 < limit) {s : State} (h : Reachable limit s) :
     (s.assigned.map (·.2.1) ++ s.items.map (·.1) ++ s.blocked.map (·.1)).Pairwise (· < ·) :=
   (reachable_inv hl h).held_sorted
@@ -36,7 +41,8 @@ theorem c10_pops_in_arrival_order {limit : Nat} (hl : 0 < limit) {s : State} (h 
     (s.assigned.map (·.1) ++ s.waiters).Pairwise (· < ·) :=
   (reachable_inv hl h).pops_sorted
 
-/-- `size() ≤ limit`, and producers are blocked only while the queue is full. -/
+/-- `size() ≤ limit`, and producers are blocked only while the queue is full (a pop whose admission loop failed
+some producers still refills the queue from the next one, so no producer waits in front of a free slot). -/
 theorem c10_size_le_limit {limit : Nat} (hl : 0 < limit) {s : State} (h : Reachable limit s) :
     s.items.length ≤ s.limit ∧ (s.blocked ≠ [] → s.items.length = s.limit) :=
   ⟨(reachable_inv hl h).len_le, (reachable_inv hl h).blocked_full⟩
@@ -57,6 +63,14 @@ theorem c10_push_completed_once {limit : Nat} (hl : 0 < limit) {s : State} (h : 
     (s.blocked.map (·.1)).count i + (pushIds s.inflight).count i + (pushIds s.completed).count i
       = if i < s.nextPush then 1 else 0 :=
   (reachable_inv hl h).push_once i
+
+/-- The producer is told the truth: a push future was failed (by `unblock_push`, by the exception of its own item
+when it was admitted, by the destruction of the queue) exactly as often as its item was withdrawn - with
+`c10_exactly_once` and `c10_push_completed_once`: an item whose push completed normally is never withdrawn (it is
+delivered or still queued), and an item whose push failed is never delivered. -/
+theorem c10_failed_iff_withdrawn {limit : Nat} (hl : 0 < limit) {s : State} (h : Reachable limit s) (i : Nat) :
+    (failedPushes s.inflight).count i + (failedPushes s.completed).count i = s.withdrawn.count i :=
+  (reachable_inv hl h).failed_withdrawn i
 
 /-- Back-pressure, decision logic: with no consumer waiting, a push completes at once iff fewer than `limit`
 items are queued; otherwise it stays pending and its item is in `blocked` and nowhere else. -/
@@ -89,7 +103,7 @@ theorem c10_blocked_fifo_one_per_pop (s : State) (x b : Nat × Nat) (xs bs : Lis
     (hi : s.items = x :: xs) (hb : s.blocked = b :: bs) :
     (stepPop s).2 = Res.pop s.nextPop (some (Out.val x.1 x.2)) ∧ (stepPop s).1.items = xs ++ [b]
     ∧ (stepPop s).1.blocked = bs ∧ (stepPop s).1.inflight = s.inflight ++ [Ev.push b.1 Out.ok] := by
-  unfold stepPop; simp [hi, hb]
+  unfold stepPop stepPopF; simp [hi, hb, admitLoop, throwsAt]
 
 /-- `unblock_push` fails exactly the oldest blocked push, withdraws its item, changes nothing else;
 with no blocked push it reports false and is a no-op -/
@@ -105,15 +119,189 @@ theorem c10_unblock_push (s : State) (c : Nat) :
   · intro h; simp [h]
   · intro b bs h; simp [h]
 
+/-! ## Throwing items: failure atomicity -/
+
+/-- Failure atomicity of `pop`, for every state and every fault plan: a pop throws exactly when there is an item to
+deliver and its hand-over to the consumer (#1) throws, and then *nothing* has changed - the item is still at the head
+of the queue, the blocked list, the parked pops, the resolutions in flight (the pending pushes) and everything that
+was handed out are what they were, no pop serial is used up: the consumer may simply retry.  (A later hand-over of
+the same call - the admission of a blocked producer - never makes `pop` throw.) -/
+theorem c10_pop_throw_changes_nothing (s : State) (g n : Nat) :
+    ((stepPopF s g n).2 = Res.threw ↔ (s.items ≠ [] ∧ throwsAt g n 1 = true))
+    ∧ ((stepPopF s g n).2 = Res.threw → (stepPopF s g n).1 = s) := by
+  unfold stepPopF
+  cases hi : s.items with
+  | nil => simp
+  | cons x xs =>
+    by_cases ht : throwsAt g n 1 = true
+    · simp [ht]
+    · simp [ht]
+
+/-- A pop that does not throw at the delivery behaves towards the consumer exactly as a pop of nothrow items:
+same result, same item, whatever happens in the admission loop afterwards. -/
+theorem c10_pop_delivers_head (s : State) (g n : Nat) (x : Nat × Nat) (xs : List (Nat × Nat))
+    (hi : s.items = x :: xs) (ht : throwsAt g n 1 = false) :
+    (stepPopF s g n).2 = Res.pop s.nextPop (some (Out.val x.1 x.2))
+    ∧ (stepPopF s g n).1.assigned = s.assigned ++ [(s.nextPop, x)] := by
+  rw [stepPopF_eq s g n x xs hi ht]; simp [popState]
+
+/-- The admission loop of a delivering pop, for every fault plan: the blocked list splits into the producers that
+were failed (`f`, the oldest ones, each because the hand-over of *its own* item threw), at most one admitted producer
+`a` (the next one, whose hand-over did not throw) and the untouched rest `r`; the failed producers get the item's
+exception and their items are withdrawn, the admitted item enters the queue behind the others, and the rest is
+non-empty only if somebody was admitted (the free slot is never left empty in front of a blocked producer). -/
+theorem c10_pop_admission (s : State) (g n : Nat) (x : Nat × Nat) (xs : List (Nat × Nat))
+    (hi : s.items = x :: xs) (ht : throwsAt g n 1 = false) :
+    ∃ f a r, s.blocked = f ++ Option.toList a ++ r ∧ (a = none → r = [])
+      ∧ (∀ j, j < f.length → throwsAt g n (2 + j) = true)
+      ∧ (a ≠ none → throwsAt g n (2 + f.length) = false)
+      ∧ (stepPopF s g n).1.items = xs ++ Option.toList a
+      ∧ (stepPopF s g n).1.blocked = r
+      ∧ (stepPopF s g n).1.withdrawn = s.withdrawn ++ f.map (·.1)
+      ∧ (stepPopF s g n).1.inflight = s.inflight ++ f.map (fun b => Ev.push b.1 Out.itemerr)
+            ++ (Option.toList a).map (fun b => Ev.push b.1 Out.ok) := by
+  rw [stepPopF_eq s g n x xs hi ht]
+  obtain ⟨e1, e2⟩ := admitLoop_spec g n s.blocked 2
+  refine ⟨_, _, _, e1, e2, ?_, ?_, rfl, rfl, rfl, rfl⟩
+  · exact (admitLoop_faults g n s.blocked 2).1
+  · exact (admitLoop_faults g n s.blocked 2).2
+
+/-- Failure atomicity of `push`.  A push under a fault plan that throws changed nothing at all.  A push whose item
+refuses to be constructed creates no item and no push serial; queue, blocked producers, everything handed out and
+everything withdrawn are unchanged; the only effect is on a consumer that was waiting: the oldest one had already
+been taken for the hand-over and completes as canceled (out of the lock). -/
+theorem c10_push_throw_changes_nothing (s : State) :
+    (∀ v g n, (stepPushMv s v g n).2 = Res.threw → (stepPushMv s v g n).1 = s)
+    ∧ (stepPushThrow s).2 = Res.threw
+    ∧ (stepPushThrow s).1.items = s.items ∧ (stepPushThrow s).1.blocked = s.blocked
+    ∧ (stepPushThrow s).1.nextPush = s.nextPush ∧ (stepPushThrow s).1.assigned = s.assigned
+    ∧ (stepPushThrow s).1.withdrawn = s.withdrawn ∧ (stepPushThrow s).1.completed = s.completed
+    ∧ (s.waiters = [] → (stepPushThrow s).1 = s)
+    ∧ (∀ w ws, s.waiters = w :: ws → (stepPushThrow s).1.waiters = ws
+          ∧ (stepPushThrow s).1.inflight = s.inflight ++ [Ev.pop w Out.canceled]) := by
+  refine ⟨?_, ?_⟩
+  · intro v g n
+    unfold stepPushMv
+    split
+    · intro _; rfl
+    · intro h
+      exfalso
+      unfold stepPush at h
+      split at h
+      · simp at h
+      · split at h <;> simp at h
+  · unfold stepPushThrow
+    cases hw : s.waiters with
+    | nil => simp
+    | cons w ws => simp
+
+/-- a push under a fault plan throws only on the blocking path (nobody waiting, queue full: the only path that hands
+the item over), and only when one of its two hand-overs is hit; otherwise it is an ordinary push -/
+theorem c10_push_throws_only_when_blocking (s : State) (v g n : Nat) :
+    ((stepPushMv s v g n).2 = Res.threw ↔
+        (s.waiters = [] ∧ s.limit ≤ s.items.length ∧ (throwsAt g n 1 = true ∨ throwsAt g n 2 = true)))
+    ∧ ((stepPushMv s v g n).2 ≠ Res.threw → stepPushMv s v g n = stepPush s v) := by
+  have hne : (stepPush s v).2 ≠ Res.threw := by
+    unfold stepPush
+    split
+    · simp
+    · split <;> simp
+  unfold stepPushMv
+  by_cases hc : (s.waiters.isEmpty && decide (s.items.length ≥ s.limit) && (throwsAt g n 1 || throwsAt g n 2)) = true
+  · rw [if_pos hc]
+    simp only [Bool.and_eq_true, Bool.or_eq_true, decide_eq_true_eq, List.isEmpty_iff] at hc
+    refine ⟨⟨fun _ => ⟨hc.1.1, hc.1.2, hc.2⟩, fun _ => rfl⟩, fun h => absurd rfl h⟩
+  · rw [if_neg hc]
+    refine ⟨⟨fun h => absurd h hne, ?_⟩, fun _ => rfl⟩
+    intro ⟨h1, h2, h3⟩
+    exfalso; apply hc
+    simp only [Bool.and_eq_true, Bool.or_eq_true, decide_eq_true_eq, List.isEmpty_iff]
+    exact ⟨⟨h1, h2⟩, h3⟩
+
+/-- Failure atomicity of `unblock_push`: it throws only when there is a blocked producer and moving its entry out
+(#1) throws, and then nothing changed (the producer stays blocked, its item stays with it). -/
+theorem c10_unblock_push_throw_changes_nothing (s : State) (c g n : Nat) :
+    ((stepUpushF s c g n).2 = Res.threw ↔ (s.blocked ≠ [] ∧ throwsAt g n 1 = true))
+    ∧ ((stepUpushF s c g n).2 = Res.threw → (stepUpushF s c g n).1 = s)
+    ∧ ((stepUpushF s c g n).2 ≠ Res.threw → stepUpushF s c g n = stepUpush s c) := by
+  have hne : (stepUpush s c).2 ≠ Res.threw := by
+    unfold stepUpush; split <;> simp
+  unfold stepUpushF
+  by_cases hc : (!s.blocked.isEmpty && throwsAt g n 1) = true
+  · rw [if_pos hc]
+    simp only [Bool.and_eq_true, Bool.not_eq_true', List.isEmpty_eq_false_iff] at hc
+    exact ⟨⟨fun _ => hc, fun _ => rfl⟩, fun _ => rfl, fun h => absurd rfl h⟩
+  · rw [if_neg hc]
+    refine ⟨⟨fun h => absurd h hne, ?_⟩, fun h => absurd h hne, fun _ => rfl⟩
+    intro ⟨h1, h2⟩
+    exfalso; apply hc
+    simp only [Bool.and_eq_true, Bool.not_eq_true', List.isEmpty_eq_false_iff]
+    exact ⟨h1, h2⟩
+
+/-- Retry: after any number of pops that threw, the state is the one before them - so the next pop that does not
+throw delivers what the first attempt would have delivered (nothing lost, nothing skipped, same order). -/
+theorem c10_failed_pops_then_retry (s : State) (faults : List (Nat × Nat))
+    (hf : ∀ p ∈ faults, (stepPopF s p.1 p.2).2 = Res.threw) (halive : s.alive = true) :
+    run s (faults.map (fun p => Op.popthrow p.1 p.2)) = s := by
+  induction faults with
+  | nil => rfl
+  | cons p ps ih =>
+    have h1 := hf p (by simp)
+    have h2 := (c10_pop_throw_changes_nothing s p.1 p.2).2 h1
+    have hs : (step s (Op.popthrow p.1 p.2)).1 = s := by
+      simp only [step, halive, if_true, stepLive]; exact h2
+    simp only [List.map_cons, run, List.foldl_cons]
+    rw [hs]
+    exact ih (fun q hq => hf q (by simp [hq]))
+
 /-- The pinned (unrepaired) code violated the property: `limit = 1; push 1; push 2; pop ×4` hands the items
 of pushes 0 and 1 out twice (replayed on the headers in corpus/c10_dup.txt; repaired by the `fix:` commit). -/
 theorem c10_asis_violation :
     ((runAsIs (init 1) [Op.push 1, Op.push 2, Op.pop, Op.pop, Op.pop, Op.pop]).assigned.map (·.2.1))
       = [0, 1, 0, 1] := by decide
 
+/-- `pop` before fix 2877284 was not failure atomic on the path that admits a blocked producer: `limit = 1; push 1;
+push 2; pop` with the second hand-over of the pop (the blocked producer's entry moved out of `_blocked`) throwing:
+the item of push 0 is nowhere - not delivered, not queued, not withdrawn (`c10_exactly_once` fails for it) - and a
+producer is blocked in front of an empty queue (`c10_size_le_limit` fails); with the third hand-over throwing the
+blocked producer's future is additionally completed (canceled) while it is still registered as blocked
+(`c10_push_completed_once` fails).  Replayed on the headers in corpus/c10_popthrow_blocked.txt. -/
+theorem c10_asis_pop_not_failure_atomic :
+    let s := runAsIsPop (init 1) [Op.push 1, Op.push 2, Op.popthrow 2 1]
+    let t := runAsIsPop (init 1) [Op.push 1, Op.push 2, Op.popthrow 3 1]
+    ((heldIds s).count 0 + s.withdrawn.count 0 = 0 ∧ s.nextPush = 2)
+    ∧ (s.blocked ≠ [] ∧ s.items.length = 0 ∧ s.limit = 1)
+    ∧ ((t.blocked.map (·.1)).count 1 + (pushIds t.inflight).count 1 + (pushIds t.completed).count 1 = 2) := by
+  decide
+
+/-- the repaired `pop` on the same inputs: the consumer gets the item of push 0, the producer whose item threw is
+failed with that exception and its item withdrawn; with a second blocked producer the slot is refilled from it -/
+theorem c10_fixed_pop_on_the_witness :
+    let s := run (init 1) [Op.push 1, Op.push 2, Op.push 3, Op.popthrow 2 1]
+    s.assigned = [(0, (0, 1))] ∧ s.withdrawn = [1] ∧ s.items = [(2, 3)] ∧ s.blocked = []
+    ∧ s.inflight = [Ev.push 1 Out.itemerr, Ev.push 2 Out.ok] := by
+  decide
+
 /-- non-vacuity: a reachable state with a full queue, a blocked producer and a served consumer -/
 example : Reachable 1 (run (init 1) [Op.push 7, Op.push 8, Op.pop]) := ⟨_, rfl⟩
 example : (run (init 1) [Op.push 7, Op.push 8, Op.pop]).assigned = [(0, (0, 7))]
     ∧ (run (init 1) [Op.push 7, Op.push 8, Op.pop]).items = [(1, 8)] := by decide
+
+/-- non-vacuity of the throwing operations: a reachable history in which a pop throws (and is retried), a push is
+refused by its item with and without a consumer waiting, a blocking push and an unblock_push throw, and a pop fails
+one blocked producer and admits the next - the hypotheses of the failure-atomicity theorems are met on the way -/
+example :
+    let ops := [Op.pop, Op.pushthrow, Op.push 1, Op.push 2, Op.pushthrow, Op.pushmv 3 2 1, Op.push 4, Op.push 5,
+                Op.upushthrow 9 1 1, Op.popthrow 1 1, Op.popthrow 2 1, Op.deliver 0, Op.deliver 0, Op.deliver 0]
+    let s := run (init 2) ops
+    Reachable 2 s
+    ∧ s.assigned = [(1, (0, 1))] ∧ s.items = [(1, 2), (3, 5)] ∧ s.withdrawn = [2] ∧ s.blocked = []
+    ∧ s.completed = [Ev.push 0 Out.ok, Ev.push 1 Out.ok, Ev.pop 1 (Out.val 0 1), Ev.pop 0 Out.canceled,
+                     Ev.push 2 Out.itemerr, Ev.push 3 Out.ok]
+    ∧ (stepPopF (run (init 2) (ops.take 9)) 1 1).2 = Res.threw
+    ∧ (stepPushMv (run (init 2) (ops.take 5)) 3 2 1).2 = Res.threw
+    ∧ (stepUpushF (run (init 2) (ops.take 8)) 9 1 1).2 = Res.threw := by
+  refine ⟨⟨_, rfl⟩, ?_⟩
+  decide
 
 end Cocls.LQ
